@@ -118,6 +118,8 @@ ObsAct(e) ==
       [] a.op = "CompareStatus" -> [op |-> "CompareStatus", a |-> a.a, b |-> a.b, ids |-> ToSet(a.ids), shallow |-> a.shallow]
       [] a.op = "Gc" -> [op |-> "Gc", s |-> a.s, used |-> ToSet(a.used), foreign |-> ToSet(a.foreign),
                          shallow |-> a.shallow, dry |-> a.dry, ro |-> a.ro]
+      [] a.op = "TransferBegin" -> [op |-> "TransferBegin", src |-> a.src, dst |-> a.dst, req |-> ToSet(a.req), shallow |-> a.shallow,
+                                    F |-> ToSet(a.F), verify |-> a.verify, idx |-> a.idx]
       [] OTHER -> a
 
 Judge ==
@@ -159,8 +161,13 @@ Judge ==
     /\ (op = "Status" =>
           /\ (C12_StatusExact(S, a, L) \/ Say("VERDICT", "C12", "StatusExact"))
           /\ (C12_NoStaleDir(S, a, L) \/ Say("VERDICT", "C12", "StaleDirReported"))
+          /\ ((~Refusal(L) => C12_StaleCleared(S, a.s, a.ids, a.idx, ridx')) \/ Say("VERDICT", "C12", "StaleIndexNotCleared"))
           /\ (C07_QueryDrops(S, T, a, L) \/ Say("VERDICT", "C07", "QueryKeepsCorrupt")))
     /\ (op = "CompareStatus" => (C12_Compare(S, a, L) \/ Say("VERDICT", "C12", "ComparePartition")))
+    /\ (op = "TransferBegin" =>
+          /\ ((~Refusal(L) => C12_StaleCleared(S, a.dst, a.req, a.idx, ridx')) \/ Say("VERDICT", "C12", "StaleIndexNotCleared"))
+          /\ (C12_XferNoStaleDir(S, a, L) \/ Say("VERDICT", "C12", "StaleDirReported"))
+          /\ (C11_NoopAbsentReported(T, a, L, opened') \/ Say("VERDICT", "C11", "AbsentReported")))
     \* ---- gc -----------------------------------------------------------------
     /\ (op = "Gc" =>
           /\ (C06_UsedKept(S, T, a, L) \/ Say("VERDICT", "C06", "UsedRemoved"))
